@@ -395,7 +395,7 @@ func (r *runner) cpu() {
 		}
 	}
 	// Java CPU profiles: addresses are ids into the location table
-	ids := []uint64{3, 4, 5, 0x1d, 0x2a}
+	ids := []uint64{3, 6, 4, 5, 0x1d, 0x2a}
 	js := seqs(ids, 1, 2)
 	if th {
 		js = seqs(ids, 1, 3)
@@ -425,7 +425,7 @@ func (r *runner) cpu() {
 
 func (r *runner) java() {
 	th := r.c.Thorough()
-	ids := []uint64{3, 4, 5, 0x1d, 0x2a}
+	ids := []uint64{3, 6, 4, 5, 0x1d, 0x2a}
 	js := seqs(ids, 1, 2)
 	if th {
 		js = seqs(ids, 1, 3)
